@@ -33,7 +33,14 @@ EXPLANATION = (
     "reported under R14c with the key prefix 'implicit targets' (F28)). R14d: exponents (lowered one by one, recursion until none is left, exponents < 1 refused; derivative "
     "e x^(e-1) with the base re-inserted). R14e: several occurrences (sorted block-key tuples, product rule), several "
     "terms (accumulation per key), terms without the tensor under ('none',), spin block keys, input guards, "
-    "assumptions preserved, the input expression unchanged, no mutable Expr shared between keys. R14f: call history: "
+    "assumptions preserved, the input expression unchanged, no mutable Expr shared between keys. "
+    "Several occurrences are removed in the order of their (sorted) block names, so that in every contribution the k-th "
+    "block of the key owns the k-th group of lowest free indices: the round trip is decided per key over ALL terms of the "
+    "expression with the canonical tensor blocks of the key (key prefix 'block order'). The expression is expanded first "
+    "(unexpanded polynomial factors are part of the value domain), the input stays as it was, a tensor inside a polynomial "
+    "denominator is refused (key prefix 'unexpanded'). derivative: repeated and target indices on the differentiated "
+    "tensor get fresh indices and deltas before the minimisation; first-order-change identity also for f_ii, V^ij_ij, "
+    "V^ij_ik Z_jk, E_c = 1/2 f^b_c Z_b (key prefix 'lifted indices'). R14f: call history: "
     "derivative / remove_tensor evaluated on input B after input A on one path with shared module-level state "
     "(Symex.run_sequence; A, B differing in target indices, tensor name, spin, bra-ket symmetry, tensor class, exponent, "
     "provided target indices, ADC name) give for both calls exactly the results of the single calls. R08g: the index "
@@ -52,10 +59,12 @@ ASSUMPTIONS = [
     "indices have been replaced on the tensor; the sign clause is decided under the weaker contract 'some renaming by "
     "transpositions onto low non-target names' (scenario 'unsorted groups')",
     "bounded: the listed scenarios (tensors of rank <= 6, at most three occurrences, exponents <= 3)",
-    "the re-contraction (round trip) is decided term by term (one term, any number of occurrences: B x D'_1 x ... x D'_n = "
-    "kappa_1 ... kappa_n x term); for expressions of several terms the closed formula is compared; derivative with a "
-    "target index on the tensor: closed formula only",
-    "which of several occurrences is removed first is taken from the model's object order (canonical order of factors)",
+    "the re-contraction (round trip) is decided per block key over all terms of the expression that hold these blocks "
+    "(B_key x D'_1 x ... x D'_n = kappa_1 ... kappa_n x sum of these terms), provided all terms have the same target "
+    "indices; polynomial denominators only as far as the tensor is refused inside them (simplify on polynomials is not "
+    "modelled)",
+    "among occurrences in the same block the one removed first is taken from the model's object order (canonical order "
+    "of factors)",
 ]
 
 RM = "simplify:remove_tensor"
